@@ -9,9 +9,12 @@
     (tree updateh t u (L ignore*))             tree_update on the heap model (PygModel/TreeHeap.lean): both operands are
                                                laid out in a heap, the call is run with its item assignments, the result
                                                node is read back; `mutated` if a pre-existing node was written
+    (tree totable t S:pattern)                 tree_to_table(t, pattern): rows as tuples of the wildcard values in pattern order
+    (tree totree S:pattern (L row*))           table_to_tree(None, pattern, rows), rows = dicts name -> value
 -/
 import PygModel.Tree
 import PygModel.TreeHeap
+import PygModel.TreeTable
 
 namespace Pyg.TreeDriver
 open Pyg Pyg.Tree
@@ -73,6 +76,20 @@ def handle1 (op : String) (args : List Sexp) : Option String := do
       match ← Val.ofSexp ig with
       | .list ig => pure (heapUpdate (← Val.ofSexp t) (← Val.ofSexp u) ig)
       | _ => Option.none
+  | "totable", [t, p] =>
+      match ← Val.ofSexp p with
+      | .cell (.str ps) =>
+          let pat := TreeTable.parsePattern ps
+          let names := pat.filterMap fun seg => match seg with | .wild n => some n | _ => Option.none
+          let rows := TreeTable.toTable pat (← Val.ofSexp t)
+          pure ("ok " ++ (Val.list (rows.map fun row => .tuple (names.map fun n => (DA.lookup n row).getD (.cell .none)))).render)
+      | _ => Option.none
+  | "totree", [p, rows] =>
+      match ← Val.ofSexp p, ← Val.ofSexp rows with
+      | .cell (.str ps), .list rs => do
+          let rows ← rs.mapM fun r => match r with | .dict kvs => some kvs | _ => Option.none
+          pure (res ((TreeTable.toTree (TreeTable.parsePattern ps) rows).map .dict))
+      | _, _ => Option.none
   | "merge", [t, u, ig] =>
       match ← Val.ofSexp ig with
       | .list ig => pure ("ok " ++ (merge ig (← Val.ofSexp t) (← Val.ofSexp u)).render)
